@@ -544,6 +544,7 @@ func runC06(ctx *core.Ctx) {
 	for i := 0; i < ctx.Pick(2000, 20000); i++ {
 		ctx.Add("c06.applyInclude", randomApply(ctx, 1+ctx.Rng.Intn(3)))
 	}
+	streamApplyDiamonds(ctx)
 	streamApplyMalformed(ctx)
 	streamApplySourceKinds(ctx)
 	streamPaste(ctx)
@@ -761,6 +762,42 @@ func streamApplySourceKinds(ctx *core.Ctx) {
 	}
 }
 
+// streamApplyDiamonds: one file reached through two include routes whose relative paths are spelled differently
+// (absolute project_directory on one route; a route through a sibling directory); sameResource must accept them,
+// and still reject a shared name whose definitions really differ.
+func streamApplyDiamonds(ctx *core.Ctx) {
+	shared := map[string]any{"services": map[string]any{"r": map[string]any{"image": "r-${V:-u}", "build": map[string]any{"context": "./ctx"},
+		"volumes": []any{map[string]any{"type": "bind", "source": "f.txt", "target": "/t"}}, "label_file": []any{"l.txt"}}},
+		"secrets": map[string]any{"s": map[string]any{"file": "./s.txt"}}, "configs": map[string]any{"c": map[string]any{"file": "c.txt"}}}
+	for style := 0; style < 2; style++ {
+		for variant := 0; variant < 4; variant++ {
+			s := c06lib.NewScen()
+			s.AddYAML("shared/d.yaml", style, shared)
+			s.AddYAML("a/inc.yaml", style, map[string]any{"include": []any{"../shared/d.yaml"}, "services": map[string]any{"sa": map[string]any{"image": "x"}}})
+			s.AddYAML("b/inc.yaml", style, map[string]any{"include": []any{"../shared/d.yaml"}, "services": map[string]any{"sb": map[string]any{"image": "y"}}})
+			s.AddYAML("c/inc.yaml", style, map[string]any{"include": []any{c06lib.Root + "/a/inc.yaml"}, "services": map[string]any{"sc": map[string]any{"image": "z"}}})
+			var inc []any
+			env := map[string]string{}
+			switch variant {
+			case 0: // absolute project_directory on one route
+				inc = []any{map[string]any{"path": "a/inc.yaml", "project_directory": c06lib.Root + "/a"}, "b/inc.yaml"}
+			case 1: // the second route passes through another directory with an absolute path
+				inc = []any{"a/inc.yaml", "c/inc.yaml"}
+			case 2: // plain diamond
+				inc = []any{"a/inc.yaml", "b/inc.yaml"}
+			case 3: // the routes see different environments: the definitions really differ
+				s.AddEnv("b/.env", [][]string{{"V", "from-b"}})
+				s.AddEnv("shared/.env", [][]string{{"V", "from-shared"}})
+				inc = []any{"a/inc.yaml", map[string]any{"path": "../shared/d.yaml", "project_directory": "b"}}
+			}
+			model := map[string]any{"include": inc, "services": map[string]any{"m": map[string]any{"image": "m"}}}
+			ctx.Add("c06.applyInclude", c06lib.ApplyArgs{Files: s.Files, Dirs: s.Dirs, Docs: s.Docs, Envs: s.Envs, WD: c06lib.Root, LWD: c06lib.Root, Env: env,
+				Model: core.EncodeVal(model), Chain: []string{c06lib.Root + "/compose.yaml"}})
+			ctx.Count(fmt.Sprintf("apply:diamond-variant%d", variant))
+		}
+	}
+}
+
 // streamApplyMalformed: include sections and target sections of every node kind.
 func streamApplyMalformed(ctx *core.Ctx) {
 	for i := 0; i < ctx.Pick(600, 3000); i++ {
@@ -854,7 +891,6 @@ func streamPaste(ctx *core.Ctx) {
 		}
 		class := "partition"
 		if g.tags["diamond"] {
-			// the two routes may compare half-resolved paths (findings/C06.txt)
 			class = "diamond"
 		}
 		ctx.Add("c06.paste", pasteArgs(g, main, entries, c06Envs[ctx.Rng.Intn(len(c06Envs))], "paste", class))
